@@ -5,10 +5,11 @@
 // The rounds are inline in encrypt_block / decrypt_block (4 per loop iteration); the only callee is `t`
 // (resp. `t_prime` in the key schedule).  c_t / c_t_prime show that `t` / `t_prime` ARE the standard's T / T'
 // (bcref::sm4::t / t_prime).  The composition obligations then replace T on BOTH sides (the real `t` and the
-// reference's `bcref::sm4::t`) by one uninterpreted function u32 -> u32: the round structure, round-key order and byte
-// plumbing agree for every function T, hence for the standard's.  (Replacing `t` by the table-driven `bcref::sm4::t`
-// instead is the same statement but takes SAT solvers > 10 min: 128 pairs of S-box lookups to match up.)
-// The unabstracted statements are kept as `*_mono` obligations on z3.
+// reference's `bcref::sm4::t`) by one record / replay uninterpreted function (see rr_uf.rs): the round structure,
+// round-key order and byte plumbing agree for every function T, hence for the standard's.
+// (Measured alternatives: replacing `t` by the table-driven `bcref::sm4::t` takes SAT solvers > 10 min, a searching
+// Ackermann table 200-220 s on CaDiCaL, the unabstracted code 110-125 s on z3 for the block functions and > 10 min
+// for the key schedule.)  The unabstracted block-function statements are kept as `*_mono` obligations on z3.
 //
 // @module file=sm4/src/lib.rs
 use super::*;
@@ -34,55 +35,9 @@ pub fn eq_bytes16(a: &[u8; 16], b: &[u8; 16]) -> bool {
 }
 pub fn any_sm4() -> Sm4 { Sm4 { rk: kani::any() } }
 
-/// Uninterpreted function u32 -> u32 (Ackermann table with a concrete call counter).
-pub mod uf32 {
-    pub const MAXC: usize = 64;
-    pub static mut IN: [u32; MAXC] = [0; MAXC];
-    pub static mut OUT: [u32; MAXC] = [0; MAXC];
-    pub static mut N: usize = 0;
-    #[allow(static_mut_refs)]
-    pub fn f(x: u32) -> u32 {
-        unsafe {
-            let mut y: u32 = kani::any();
-            let mut found = false;
-            let mut i = 0;
-            while i < N {
-                if !found && IN[i] == x { y = OUT[i]; found = true; }
-                i += 1;
-            }
-            assert!(N < MAXC);
-            IN[N] = x;
-            OUT[N] = y;
-            N += 1;
-            y
-        }
-    }
-}
-
-/// A second, independent uninterpreted function (for T' next to T).
-pub mod uf32b {
-    pub const MAXC: usize = 64;
-    pub static mut IN: [u32; MAXC] = [0; MAXC];
-    pub static mut OUT: [u32; MAXC] = [0; MAXC];
-    pub static mut N: usize = 0;
-    #[allow(static_mut_refs)]
-    pub fn f(x: u32) -> u32 {
-        unsafe {
-            let mut y: u32 = kani::any();
-            let mut found = false;
-            let mut i = 0;
-            while i < N {
-                if !found && IN[i] == x { y = OUT[i]; found = true; }
-                i += 1;
-            }
-            assert!(N < MAXC);
-            IN[N] = x;
-            OUT[N] = y;
-            N += 1;
-            y
-        }
-    }
-}
+include!("@VERIF@/contracts/sm4/rr_uf.rs");
+rr_uf!(uft, u32); // stands for T
+rr_uf!(uftp, u32); // stands for T'
 
 // ---------------------------------------------------------------- constants and helpers
 // The three constant tables equal the standard's (SBOX: clause 6.2 table; FK; CK from its formula), entry by entry.
@@ -134,13 +89,16 @@ pub fn spec_new(key: &[u8; 16]) -> [u32; 32] { bcref::sm4::key_expansion(&bcref:
 
 // @ob name=c_key_schedule props=C06,C20 fn=sm4::Sm4::new uses=c_t_prime,x_tables timeout=300
 #[kani::proof]
-#[kani::stub(t_prime, uf32b::f)]
-#[kani::stub(bcref::sm4::t_prime, uf32b::f)]
-#[kani::unwind(65)]
+#[kani::stub(t_prime, uftp::f)]
+#[kani::stub(bcref::sm4::t_prime, uftp::f)]
+#[kani::unwind(37)]
 fn c_key_schedule() {
     let k: [u8; 16] = kani::any();
     let c = Sm4::new(&Array(k));
-    assert!(eq32(&c.rk, &spec_new(&k)));
+    uftp::replay_fwd();
+    let e = spec_new(&k);
+    assert!(uftp::done() && uftp::calls() == 32);
+    assert!(eq32(&c.rk, &e));
 }
 
 // ---------------------------------------------------------------- block functions, every round-key state
@@ -157,53 +115,71 @@ pub fn dec(c: &Sm4, b: [u8; 16]) -> [u8; 16] {
 
 // @ob name=c_encrypt props=C06,C20 fn=sm4::Sm4::encrypt_block uses=c_t timeout=300
 #[kani::proof]
-#[kani::stub(t, uf32::f)]
-#[kani::stub(bcref::sm4::t, uf32::f)]
-#[kani::unwind(65)]
+#[kani::stub(t, uft::f)]
+#[kani::stub(bcref::sm4::t, uft::f)]
+#[kani::unwind(37)]
 fn c_encrypt() {
     let c = any_sm4();
     let b: [u8; 16] = kani::any();
-    assert!(eq_bytes16(&enc(&c, b), &bcref::sm4::encrypt_with(&c.rk, &b)));
+    let r = enc(&c, b);
+    uft::replay_fwd();
+    let e = bcref::sm4::encrypt_with(&c.rk, &b);
+    assert!(uft::done() && uft::calls() == 32);
+    assert!(eq_bytes16(&r, &e));
 }
 
 // @ob name=c_decrypt props=C06,C20 fn=sm4::Sm4::decrypt_block uses=c_t timeout=300
 #[kani::proof]
-#[kani::stub(t, uf32::f)]
-#[kani::stub(bcref::sm4::t, uf32::f)]
-#[kani::unwind(65)]
+#[kani::stub(t, uft::f)]
+#[kani::stub(bcref::sm4::t, uft::f)]
+#[kani::unwind(37)]
 fn c_decrypt() {
     let c = any_sm4();
     let b: [u8; 16] = kani::any();
-    assert!(eq_bytes16(&dec(&c, b), &bcref::sm4::decrypt_with(&c.rk, &b)));
+    let r = dec(&c, b);
+    uft::replay_fwd();
+    let e = bcref::sm4::decrypt_with(&c.rk, &b);
+    assert!(uft::done() && uft::calls() == 32);
+    assert!(eq_bytes16(&r, &e));
 }
 
 // ---------------------------------------------------------------- public API on bytes, every key and block
 // @ob name=c_api_enc props=C06,C20 fn=sm4::Sm4::new,sm4::Sm4::encrypt_block uses=c_t,c_t_prime timeout=300
 #[kani::proof]
-#[kani::stub(t, uf32::f)]
-#[kani::stub(bcref::sm4::t, uf32::f)]
-#[kani::stub(t_prime, uf32b::f)]
-#[kani::stub(bcref::sm4::t_prime, uf32b::f)]
-#[kani::unwind(65)]
+#[kani::stub(t, uft::f)]
+#[kani::stub(bcref::sm4::t, uft::f)]
+#[kani::stub(t_prime, uftp::f)]
+#[kani::stub(bcref::sm4::t_prime, uftp::f)]
+#[kani::unwind(37)]
 fn c_api_enc() {
     let k: [u8; 16] = kani::any();
     let b: [u8; 16] = kani::any();
     let c = Sm4::new(&Array(k));
-    assert!(eq_bytes16(&enc(&c, b), &bcref::sm4::encrypt(&k, &b)));
+    let r = enc(&c, b);
+    uft::replay_fwd();
+    uftp::replay_fwd();
+    let e = bcref::sm4::encrypt(&k, &b);
+    assert!(uft::done() && uftp::done() && uft::calls() == 32 && uftp::calls() == 32);
+    assert!(eq_bytes16(&r, &e));
 }
 
 // @ob name=c_api_dec props=C06,C20 fn=sm4::Sm4::new,sm4::Sm4::decrypt_block uses=c_t,c_t_prime timeout=300
 #[kani::proof]
-#[kani::stub(t, uf32::f)]
-#[kani::stub(bcref::sm4::t, uf32::f)]
-#[kani::stub(t_prime, uf32b::f)]
-#[kani::stub(bcref::sm4::t_prime, uf32b::f)]
-#[kani::unwind(65)]
+#[kani::stub(t, uft::f)]
+#[kani::stub(bcref::sm4::t, uft::f)]
+#[kani::stub(t_prime, uftp::f)]
+#[kani::stub(bcref::sm4::t_prime, uftp::f)]
+#[kani::unwind(37)]
 fn c_api_dec() {
     let k: [u8; 16] = kani::any();
     let b: [u8; 16] = kani::any();
     let c = Sm4::new(&Array(k));
-    assert!(eq_bytes16(&dec(&c, b), &bcref::sm4::decrypt(&k, &b)));
+    let r = dec(&c, b);
+    uft::replay_fwd();
+    uftp::replay_fwd();
+    let e = bcref::sm4::decrypt(&k, &b);
+    assert!(uft::done() && uftp::done() && uft::calls() == 32 && uftp::calls() == 32);
+    assert!(eq_bytes16(&r, &e));
 }
 
 // The same with no stub at all: the real code (tables included) against the reference, every round-key state.
@@ -227,24 +203,33 @@ fn c_decrypt_mono() {
 }
 
 // ---------------------------------------------------------------- C01 round trip, every round-key state
-// `t` abstracted to an uninterpreted function (licensed by c_t: t is a pure function of its argument).
-// @ob name=l_roundtrip props=C01 kind=lemma fn=sm4::Sm4::encrypt_block,sm4::Sm4::decrypt_block uses=c_t timeout=600
+// T abstracted (licensed by c_t: t is a pure function): decryption presents T with the arguments of encryption in
+// reverse order (replay_bwd), and vice versa.
+// @ob name=l_roundtrip props=C01 kind=lemma fn=sm4::Sm4::encrypt_block,sm4::Sm4::decrypt_block uses=c_t timeout=300
 #[kani::proof]
-#[kani::stub(t, uf32::f)]
-#[kani::unwind(65)]
+#[kani::stub(t, uft::f)]
+#[kani::unwind(37)]
 fn l_roundtrip() {
     let c = any_sm4();
     let b: [u8; 16] = kani::any();
-    assert!(eq_bytes16(&dec(&c, enc(&c, b)), &b));
+    let y = enc(&c, b);
+    uft::replay_bwd();
+    let x = dec(&c, y);
+    assert!(uft::done() && uft::calls() == 32);
+    assert!(eq_bytes16(&x, &b));
 }
-// @ob name=l_roundtrip_rev props=C01 kind=lemma fn=sm4::Sm4::encrypt_block,sm4::Sm4::decrypt_block uses=c_t timeout=600
+// @ob name=l_roundtrip_rev props=C01 kind=lemma fn=sm4::Sm4::encrypt_block,sm4::Sm4::decrypt_block uses=c_t timeout=300
 #[kani::proof]
-#[kani::stub(t, uf32::f)]
-#[kani::unwind(65)]
+#[kani::stub(t, uft::f)]
+#[kani::unwind(37)]
 fn l_roundtrip_rev() {
     let c = any_sm4();
     let b: [u8; 16] = kani::any();
-    assert!(eq_bytes16(&enc(&c, dec(&c, b)), &b));
+    let y = dec(&c, b);
+    uft::replay_bwd();
+    let x = enc(&c, y);
+    assert!(uft::done() && uft::calls() == 32);
+    assert!(eq_bytes16(&x, &b));
 }
 // The same on the unmodified code (real t, tau, S-box), both orders.
 // @ob name=l_roundtrip_mono props=C01 kind=lemma fn=sm4::Sm4::encrypt_block,sm4::Sm4::decrypt_block,sm4::t solver=z3 timeout=900
@@ -255,5 +240,13 @@ fn l_roundtrip_mono() {
     let c = any_sm4();
     let b: [u8; 16] = kani::any();
     assert!(eq_bytes16(&dec(&c, enc(&c, b)), &b));
+}
+// @ob name=l_roundtrip_rev_mono props=C01 kind=lemma fn=sm4::Sm4::encrypt_block,sm4::Sm4::decrypt_block,sm4::t solver=z3 timeout=900
+#[kani::proof]
+#[kani::solver(z3)]
+#[kani::unwind(37)]
+fn l_roundtrip_rev_mono() {
+    let c = any_sm4();
+    let b: [u8; 16] = kani::any();
     assert!(eq_bytes16(&enc(&c, dec(&c, b)), &b));
 }
